@@ -91,7 +91,12 @@ def scenario_case(sc):
             an[ANN] = p["annot"]
         if p.get("ext") is not None:
             an[EXT] = p["ext"]["text"]
-        pods.append({"name": p["name"], "ns": "ns", "annotations": an, "eni": bool(p.get("eni"))})
+        pod = {"name": p["name"], "ns": "ns", "annotations": an, "eni": bool(p.get("eni"))}
+        # the API server's watch cache still shows an earlier version of every second pod (its form before the binding / the
+        # annotations of a previous incarnation): a daemon that accepts a cached read resolves other networks and arguments
+        if sum(map(ord, p["name"])) % 2 == 0:
+            pod["cached_annotations"] = {ANN: "stale-network-of-an-earlier-version"} if an else {ANN: "galaxy-flannel,stale-network"}
+        pods.append(pod)
     steps = []
     for st in sc["steps"]:
         reqs = []
